@@ -3082,10 +3082,10 @@ static int bufr_get_numeric_compressed
       errcode = -2;
       }
 /*
- * all value are missing
+ * all value are missing; 63 is a real increment width for elements of 63 bits or more
  */
    msng = bufr_missing_ivalue( 6 );
-   if (nbinc == msng)
+   if ((nbinc == msng)&&(nbinc > cb->encoding.nbits))
       nbinc = 0; 
 
    if ( errcode < 0 ) return errcode;
